@@ -15,22 +15,24 @@
 (* QueueCollection and compares case by case.                              *)
 (*                                                                         *)
 (* Shape: NDev development versions 1..NDev, StabAt in 0..NDev (0 = no     *)
-(* stabilization branch, i = stabilization branch of version i), HasHf.    *)
+(* stabilization branch, i = stabilization branch of version i), NHf.      *)
 (* Status classes 0..NSt-1 with 0 = SUCCESSFUL.                            *)
 (***************************************************************************)
 EXTENDS Naturals, Sequences, FiniteSets, TLC, Json, IOUtils, SequencesExt, FiniteSetsExt
 
-CONSTANTS NDev, StabAt, HasHf, NPr, NSt
+CONSTANTS NDev, StabAt, NHf, NPr, NSt      \* NHf in 0..2: number of hotfix branches (each with its own queue)
 
 D(i) == <<"d", i>>
 S(i) == <<"s", i>>
-Hf   == <<"h", 0>>
+Hf(k) == <<"h", k>>
+RECURSIVE HfsFrom(_)
+HfsFrom(k) == IF k >= NHf THEN <<>> ELSE <<Hf(k)>> \o HfsFrom(k + 1)
 RECURSIVE DevsFrom(_)
 DevsFrom(i) == IF i > NDev THEN <<>> ELSE <<D(i)>> \o DevsFrom(i + 1)
 RECURSIVE CascFrom(_)
 CascFrom(i) == IF i > NDev THEN <<>>
                ELSE (IF StabAt = i THEN <<S(i)>> ELSE <<>>) \o <<D(i)>> \o CascFrom(i + 1)
-Dests == CascFrom(1) \o (IF HasHf THEN <<Hf>> ELSE <<>>)       \* destination choices, in order
+Dests == CascFrom(1) \o HfsFrom(0)                              \* destination choices, in order
 Targets(d) == IF d[1] = "h" THEN <<d>>
               ELSE IF d[1] = "s" THEN <<d>> \o DevsFrom(d[2]) ELSE DevsFrom(d[2])
 OnVersion(d, v) == \E j \in DOMAIN Targets(d) : Targets(d)[j] = v
@@ -51,7 +53,7 @@ Pow(b, e) == IF e = 0 THEN 1 ELSE b * Pow(b, e - 1)
 Digit(x, j) == (x \div Pow(NSt, j - 1)) % NSt          \* status class of commit j under code x
 
 MainPrs(a) == SelectSeq([p \in 1..NPr |-> p], LAMBDA p : Dests[a[p]][1] # "h")
-HfPrs(a)   == SelectSeq([p \in 1..NPr |-> p], LAMBDA p : Dests[a[p]][1] = "h")
+HfPrs(a, k) == SelectSeq([p \in 1..NPr |-> p], LAMBDA p : Dests[a[p]] = Hf(k))
 Versions == {Dests[j] : j \in DOMAIN Dests}
 
 \* prefix k of queue q (a sequence of PRs in order of entry) is good under status code x
@@ -61,8 +63,8 @@ Good(a, cs, x, q, k) ==
      IN on # <<>> => Digit(x, IndexOf(cs, <<on[Len(on)], v>>)) = 0
 Longest(a, cs, x, q) == Max({k \in 0..Len(q) : Good(a, cs, x, q, k)})
 
-\* expected selection, encoded: (length of the main-queue prefix) * 10 + (length of the hotfix prefix)
-Expected(a, cs, x) == Longest(a, cs, x, MainPrs(a)) * 10 + Longest(a, cs, x, HfPrs(a))
+\* expected selection, encoded: (length of the main-queue prefix) * 100 + (prefix of hotfix queue 0) * 10 + (of hotfix queue 1)
+Expected(a, cs, x) == Longest(a, cs, x, MainPrs(a)) * 100 + Longest(a, cs, x, HfPrs(a, 0)) * 10 + Longest(a, cs, x, HfPrs(a, 1))
 
 Line(a) ==
   LET cs == Commits(a)
